@@ -40,6 +40,7 @@ pub const SUBS: &[SubDef] = &[
     SubDef { prop: "C01", name: "histories", oracle: histories },
     SubDef { prop: "C01", name: "long_histories", oracle: long_histories },
     SubDef { prop: "C01", name: "oversize_histories", oracle: oversize_histories },
+    SubDef { prop: "C01", name: "tiny_fragment_streams", oracle: tiny_fragment_streams },
     SubDef { prop: "C01", name: "entry_points_raw", oracle: entry_points_raw },
     SubDef { prop: "C01", name: "edge_matrix", oracle: edge_matrix },
 ];
@@ -74,6 +75,10 @@ fn run(ctx: &Ctx) {
         v
     });
     ctx.run_enum("oversize_histories", oversize_histories, false, "first fragments of 10 MiB-2 .. 10 MiB+4096 and 2^24-1 bytes built by hand, each followed by a generated history of up to 12 calls", cases.collect::<Vec<_>>().into_iter());
+    // very many tiny fragments of one never-completing message: anything the parser counts per fragment gets past 2^16
+    let nfr = ctx.pick(70_000, 300_000);
+    let cases = (0..6u8).map(|m| vec![m, (nfr >> 16) as u8, (nfr >> 8) as u8, nfr as u8]);
+    ctx.run_enum("tiny_fragment_streams", tiny_fragment_streams, false, &format!("6 streams of {} empty / one-byte / mixed fragments after a first fragment (handshake and heartbeat)", nfr), cases.collect::<Vec<_>>().into_iter());
     ctx.run_tape("entry_points_raw", entry_points_raw, ctx.pick(4_000, 200_000), 80);
     // enumerated: every known extension / handshake / content type x declared length 0..5 x body size {0,1,2,3,5,9} x 3 fill patterns
     let mut cases = Vec::new();
@@ -582,8 +587,48 @@ fn maxed(t: &mut Tape) -> Vec<u8> {
     e.buf
 }
 
+/// hellos in the TLS 1.3 shape - the place where "feature work" lands: ServerHello with the HelloRetryRequest marker or a downgrade
+/// sentinel as random, legacy version 0x0303, and a block holding supported_versions in each of its encodings (incl. the empty
+/// list), key_share, cookie, pre_shared_key; ClientHello with the same kind of block. As a message, a body, or inside a record;
+/// half of them corrupted afterwards.
+fn tls13_hellos(t: &mut Tape) -> Vec<u8> {
+    let ext = gen_tls13_server_ext(t);
+    let random = match t.below(4) {
+        0 | 1 => HRR_RANDOM.to_vec(),
+        2 => {
+            let mut r = t.bytes(32);
+            r[24..].copy_from_slice(if t.bool() { b"DOWNGRD\x01" } else { b"DOWNGRD\x00" });
+            r
+        }
+        _ => t.bytes(32),
+    };
+    let sid = if t.bool() { Some(t.bytes(32)) } else { None };
+    let h = if t.chance(190) {
+        MHs::ServerHello { version: t.pick(&[0x0303u16, 0x0303, 0x0303, 0x0302, 0x0301]), random, sid, cipher: gen_cipher_id(t), comp: 0, ext: Some(ext) }
+    } else {
+        MHs::ClientHello { version: 0x0303, random, sid, ciphers: vec![0x1301, 0x1302, gen_cipher_id(t)], comp: vec![0], ext: Some(ext) }
+    };
+    let mut e = Enc::new();
+    match t.below(4) {
+        0 => h.encode_body(&mut e),
+        1 => {
+            let m = h.to_bytes();
+            e.u8(0x16);
+            e.u16(t.pick(&[0x0303u16, 0x0301]));
+            e.vec(2, "rec.len", &m);
+        }
+        _ => h.encode(&mut e),
+    }
+    if t.bool() {
+        e.buf
+    } else {
+        corrupt(t, &e)
+    }
+}
+
 fn gen_input(t: &mut Tape) -> (String, Vec<u8>) {
-    match t.weighted(&[4, 1, 10, 1, 4, 2, 1]) {
+    match t.weighted(&[4, 1, 10, 1, 4, 2, 1, 2]) {
+        7 => ("tls13-hellos".into(), tls13_hellos(t)),
         4 => ("edge-headers".into(), edge_headers(t)),
         5 => ("utf8-names".into(), utf8_names(t)),
         6 => ("maxed".into(), maxed(t)),
@@ -806,6 +851,45 @@ fn histories(t: &mut Tape, obs: &mut Obs) -> R {
     let r = run_history(&ops, obs);
     alloc::inflight_clear();
     r
+}
+
+/// parameter tape: [mode, n_hi, n_mid, n_lo]: mode / 2 = fragment shape (0 empty, 1 one byte, 2 alternating), mode % 2 = content type
+fn tiny_fragment_streams(t: &mut Tape, obs: &mut Obs) -> R {
+    let mode = t.u8() as usize % 6;
+    let n = (t.u8() as usize) << 16 | (t.u8() as usize) << 8 | t.u8() as usize;
+    let (shape, ctype) = (mode / 2, if mode % 2 == 0 { 0x16u8 } else { 0x18 });
+    let first: Vec<u8> = if ctype == 0x16 { vec![11, 0xff, 0xff, 0xff] } else { vec![1, 0xff, 0xff] };
+    let mut p = TlsRecordsParser::default();
+    let k = k_factor();
+    let mut fed = 0usize;
+    let mut worst = 0usize;
+    let empty: Vec<u8> = vec![];
+    let one = vec![0x3c_u8];
+    for i in 0..=n {
+        let data: &[u8] = if i == 0 {
+            &first
+        } else {
+            match shape {
+                0 => &empty,
+                1 => &one,
+                _ => if i % 2 == 0 { &empty } else { &one },
+            }
+        };
+        fed += data.len();
+        let rec = super::c07::Rec::new(ctype, 0x0303, data.to_vec());
+        obs.evals_add(1);
+        let st = guard("TlsRecordsParser::parse_record", || alloc::measure(|| p.parse_record(rec.raw()).map(|(r, m)| (r.len(), m.len())).map_err(|e| e.map(|x| x.code))).1)?;
+        worst = worst.max(st.peak);
+        let bound = 64 * 1024 + 3 * (fed + 1024) + (k + 2) * data.len();
+        ensure!(st.peak <= bound, "C01:history:alloc", "fragment {} of a stream of tiny fragments: peak {} bytes with {} bytes fed (bound {})", i, st.peak, fed, bound);
+        if i % 4096 == 0 {
+            alloc::progress();
+        }
+    }
+    obs.nontrivial(mode as u64 ^ (n as u64) << 8);
+    let shape_name = ["empty", "one byte", "alternating"][shape];
+    obs.sample(json!({"content_type": ctype, "fragment_shape": shape_name, "fragments": n, "bytes_fed": fed, "largest_peak_in_a_call": worst, "buffered_at_the_end": p.verif_defrag_buffer().len()}));
+    Ok(())
 }
 
 const OVERSIZE_LENS: [usize; 8] = [MAX_DEFRAG - 2, MAX_DEFRAG - 1, MAX_DEFRAG, MAX_DEFRAG + 1, MAX_DEFRAG + 2, MAX_DEFRAG + 4096, MAX_DEFRAG - 16640, (1 << 24) - 1];
